@@ -419,6 +419,9 @@ def sub(base, idx):
         idx = mk("slice", *a_)
         if all(x.op == "const" and x.a[0] is None for x in a_):
             return base  # x[slice(None)]: everything
+    # an element-wise function of a shape tuple, indexed: np.log2(x.shape)[k] is np.log2(x.shape[k])
+    if base.op == "call" and callee_name(base.a[0]) in ("np.log2", "np.log", "np.sqrt", "np.abs", "np.exp", "np.log10") and len(base.a[1]) == 1 and not base.a[2] and base.a[1][0].op == "attr" and base.a[1][0].a[1] == "shape" and idx.op == "const" and isinstance(idx.a[0], float):
+        return call(base.a[0], (sub(base.a[1][0], idx),))
     # np.<op>.outer(a, b).shape[k] is the length of a (k = 0) / of b (k = 1)
     if base.op == "attr" and base.a[1] == "shape" and idx.op == "const" and idx.a[0] in (0, 1) and not isinstance(idx.a[0], bool):
         o = base.a[0]
@@ -464,7 +467,7 @@ def proj(t, k):
         X, cid = t.a[2][0], t.a[4]
         el = mk("iter", X, cid)
         return rebuild(t.a[1], lambda z: sub(X, const(k)) if z is el else None)
-    return mk("sub", t, const(k))
+    return sub(t, const(k))
 
 
 def tup(items):
